@@ -29,7 +29,8 @@ RULE = (
 ASSUMPTIONS = ["fake streams stand in for sockets/stdio: EOF = read returns empty, errors are raised by read()/write()"]
 
 FAULTS = ["eof", "read-error", "eof-in-message", "junk-eof", "handler-exception", "write-error-then-read-error", "eof-of-two-at-once",
-          "read-error-in-message", "handler-exception-with-more-behind", "write-error-two-updates-then-read-error"]
+          "read-error-in-message", "handler-exception-with-more-behind", "write-error-two-updates-then-read-error",
+          "handler-exception-StopIteration", "handler-exception-KeyError"]
 
 
 class Exploding:
@@ -39,6 +40,7 @@ class Exploding:
         from indi.routing import Device
 
         self.calls = 0
+        self.exc_class = RuntimeError
         outer = self
 
         class Dev(Device):
@@ -48,7 +50,8 @@ class Exploding:
             def message_from_client(self, message):
                 if getattr(message, "device", None) == "BOOM":
                     outer.calls += 1
-                    raise RuntimeError("device failure while handling a client message (injected)")
+                    # the class of the failure is the driver author's accident: StopIteration (a bare next()), KeyError ...
+                    raise outer.exc_class("device failure while handling a client message (injected)")
 
         self.device = Dev()
 
@@ -128,6 +131,9 @@ def run_script(case):
             # the failing message has more traffic behind it in the same read
             victim.send('<newTextVector device="BOOM" name="X"><oneText name="A">x</oneText></newTextVector>'
                         '<newTextVector device="DEV" name="TXT"><oneText name="B">behind</oneText></newTextVector><getProp')
+        elif fault in ("handler-exception-StopIteration", "handler-exception-KeyError"):
+            boom.exc_class = StopIteration if fault.endswith("StopIteration") else KeyError
+            victim.send('<newTextVector device="BOOM" name="X"><oneText name="A">x</oneText></newTextVector>')
         elif fault == "handler-exception":
             victim.send('<newTextVector device="BOOM" name="X"><oneText name="A">x</oneText></newTextVector>')
         elif fault == "write-error-then-read-error":
